@@ -185,7 +185,11 @@ def _np_grouped_op(
 def _nan_grouped_op(group_idx, array, func, fillna, *args, **kwargs):
     if fillna in [dtypes.INF, dtypes.NINF]:
         fillna = dtypes._get_fill_value(kwargs.get("dtype", None) or array.dtype, fillna)
-    result = func(group_idx, np.where(isnull(array), fillna, array), *args, **kwargs)
+    nullmask = isnull(array)
+    if nullmask.any():
+        # (integer arrays have no nulls; substituting there could overflow a narrow dtype with a wide fill)
+        array = np.where(nullmask, fillna, array)
+    result = func(group_idx, array, *args, **kwargs)
     # np.nanmax([np.nan, np.nan]) = np.nan
     # To recover this behaviour, we need to search for the fillna value
     # (either np.inf or -np.inf), and replace with NaN
